@@ -386,6 +386,23 @@ def generate(seed, tier):
         integer = rng.random() < 0.6
         ops = [one_op(rng, integer) for _ in range(rng.randint(3, 7))]
         cases.append([case_line(rng, ("int%d" if integer else "real%d") % cidx)] + ops)
+    return with_vector_lengths(rng, cases)
+
+
+def with_vector_lengths(rng, cases):
+    """about a third of the lap calls get output vectors of other lengths than dim (0, shorter,
+    longer, mixed): `lapv <|rowSol|> <|colSol|> <|u|> <|v|> M`"""
+    for c in cases:
+        for k in range(1, len(c)):
+            t = c[k].split()
+            if t[0] == "lap" and len(t) >= 3 and rng.random() < 0.33:
+                n = int(t[1])
+                pick = lambda: rng.choice([0, 0, max(n - 1, 0), n, n, n + 1, n + 3, 1])
+                if rng.random() < 0.3:
+                    l = rng.choice([0, max(n - 1, 0), n + 2]); lens = [l] * 4
+                else:
+                    lens = [pick() for _ in range(4)]
+                c[k] = "lapv %d %d %d %d %s" % (lens[0], lens[1], lens[2], lens[3], " ".join(t[1:]))
     return cases
 
 
@@ -404,7 +421,7 @@ def compare(op_line, impl, model):
 
 def coverage_extra(cases, answers):
     shapes, kinds, lapn = {}, {}, {}
-    nonconf = crashed = integer_cases = real_cases = 0
+    nonconf = crashed = integer_cases = real_cases = lapv_lengths = 0
     for c, a in zip(cases, answers):
         head = c[0].split()
         kinds["/".join(head[2:5])] = kinds.get("/".join(head[2:5]), 0) + 1
@@ -418,6 +435,9 @@ def coverage_extra(cases, answers):
                 nonconf += 1
             if r.startswith("crash"):
                 crashed += 1
+            if t[0] == "lapv":
+                lapv_lengths += 1
+                t = ["lap"] + t[5:]
             if t[0] == "lap" and len(t) > 2:
                 lapn[t[1] + "x" + t[2]] = lapn.get(t[1] + "x" + t[2], 0) + 1
             elif len(t) > 2 and t[1].isdigit() and t[2].isdigit() and not t[0].startswith("m"):
@@ -426,16 +446,19 @@ def coverage_extra(cases, answers):
     lap_transcribed = 0
     for c, a in zip(cases, answers):
         for l, r in zip(c[1:], a or []):
-            if l.startswith("lap ") and r.startswith("cost "):
-                t = l.split(); n = int(t[1])
+            if l.startswith(("lap ", "lapv ")) and r.startswith("cost "):
+                t = l.split()
+                if t[0] == "lapv":
+                    t = ["lap"] + t[5:]
+                n = int(t[1])
                 if n == int(t[2]) and n >= 1:
                     import struct as _s
                     vals = [_s.unpack(">d", bytes.fromhex(x))[0] for x in t[3:]]
                     im = [min(range(n), key=lambda i: (vals[i * n + j], i)) for j in range(n)]
                     if len(set(im)) == n:
                         lap_transcribed += 1
-    lap_compared = sum(1 for c, a in zip(cases, answers) for l, r in zip(c[1:], a or []) if l.startswith("lap ") and r.startswith("cost "))
+    lap_compared = sum(1 for c, a in zip(cases, answers) for l, r in zip(c[1:], a or []) if l.startswith(("lap ", "lapv ")) and r.startswith("cost "))
     return {"lap_answers_compared_bit_for_bit": lap_compared, "lap_inputs_without_free_row_after_column_reduction": lap_transcribed, "first_operand_shapes": dict(sorted(shapes.items())), "storage_triples_used": len(kinds),
-            "storage_triples": dict(sorted(kinds.items())), "lap_sizes": dict(sorted(lapn.items())),
+            "storage_triples": dict(sorted(kinds.items())), "lap_sizes": dict(sorted(lapn.items())), "lap_calls_with_output_vectors_of_other_lengths": lapv_lengths,
             "dimension_errors_raised": nonconf, "aborted_on_contract_violation": crashed,
             "integer_cases": integer_cases, "real_cases": real_cases}
